@@ -21,9 +21,9 @@ theorem bodyEvents_sameHs {base : List Interaction} {st st2 : St PyLite.World Py
   obtain ⟨new, h1, h2⟩ := h
   exact ⟨new, by rw [hh]; exact h1, h2⟩
 
-theorem eventsKit (sc : String → Bool) (hk : Option Cfg) (base : List Interaction) :
-    InvKit ({ host := PyLite.hostObs, sc := sc, hk := hk } : Env PyLite.World PyLite.HState)
-      (BodyEvents base) (fun _ => True) where
+theorem eventsKitS (sc : String → Bool) (hk : Option Cfg) (base : List Interaction) :
+    InvKitS ({ host := PyLite.hostObs, sc := sc, hk := hk } : Env PyLite.World PyLite.HState)
+      (BodyEvents base) (fun _ => True) (fun x => bodyName x = true) where
   nUser := fun x hx => by simp [bodyName, hx]
   nValue := by decide
   nYield := by decide
@@ -80,6 +80,10 @@ theorem eventsKit (sc : String → Bool) (hk : Option Cfg) (base : List Interact
   pushCur := fun _ _ hp _ => bodyEvents_sameHs hp rfl
   popCur := fun _ hp => bodyEvents_sameHs hp rfl
   curQ := fun _ _ _ _ => trivial
+
+theorem eventsKit (sc : String → Bool) (hk : Option Cfg) (base : List Interaction) :
+    InvKit ({ host := PyLite.hostObs, sc := sc, hk := hk } : Env PyLite.World PyLite.HState)
+      (BodyEvents base) (fun _ => True) := (eventsKitS sc hk base).toN
 
 end Ptera.Sem
 
